@@ -83,6 +83,26 @@ def scalars_pm(lo=0.1, hi=10.0):
     return st.builds(lambda s, m: s * m, st.sampled_from([-1.0, 1.0]), fl(lo, hi))
 
 
+def scalars_wide():
+    """per-unit factors: mostly ordinary ones, one draw in four a factor three orders of
+    magnitude away"""
+    return st.one_of(scalars_pm(), scalars_pm(), scalars_pm(),
+                     st.sampled_from([1e-3, -2e-3, 1e3, -5e2]))
+
+
+COMMON_FACTORS = [1.0, 1.0, 1.0, 1e-9, -1e-5, 1e5, 3e8]
+
+
+def scale_lists(draw, *counts):
+    """"arbitrary non-zero scalars": lists of per-unit factors (scalars_wide) times one
+    factor common to the whole case, which may be of quite another order of magnitude
+    (homogeneous coordinates read off a tiny drawing, or kept in other units). A common
+    factor costs no accuracy; the per-unit ones differ by at most 1e6 within a case, far
+    inside the range where float64 sums of differently scaled terms keep 1e-9 accuracy."""
+    common = draw(st.sampled_from(COMMON_FACTORS))
+    return [[common * draw(scalars_wide()) for _ in range(c)] for c in counts]
+
+
 @st.composite
 def orthogonal_matrix(draw, n, allow_reflection=True):
     """O(n) matrix as a product of a few Givens rotations (and maybe a reflection)."""
